@@ -21,6 +21,22 @@ package cluster
 // transactions over k1 / k1x / k2 and k3 back to back while the consumers pull.  The fillers appear in
 // contents as the pseudo-key "fill": "f1" = exactly the fillers with their values, "none" = no filler,
 // anything else is written out ("bad:...") and matches no content of the store.
+//
+// Endings: the writer keeps the order in which the keys were last modified; a scenario's history ends with
+// an operation chosen by that order - the deletion of the most recently modified key while older keys
+// remain (after the put was delivered or right behind it), the deletion of the oldest key, a same-value
+// put, a delete-then-recreate - or just with whatever the random burst did last.
+//
+// Outages that span several pulls while the content does not change: (1) every other plain-restart wave
+// keeps the server down for more than three request time-outs (a pull against a stopped server fails
+// when its request context expires), lets the last content be delivered before the stop and leaves the
+// store alone for some pull intervals after the restart; (2) in every wave one scenario's syncer
+// belongs to a member whose etcd requests can be made to fail ("lossy": a cluster value on its own etcd
+// client whose KV fails every Get while the fault is on - a partition between that member and the
+// server; the watch stream stays up): with a non-empty, delivered content every run loop of the
+// scenario sees 3..6 pulls fail in a row (counted at the client) while the store is not written, then
+// the requests work again and the store is left alone for some pull intervals; a second outage has
+// writes (through the healthy member) going on meanwhile.
 
 import (
 	"context"
@@ -148,6 +164,54 @@ func c19Start(c *cluster, altPeerURL string) error {
 	return nil
 }
 
+// c19LossyKV fails every Get of a member's etcd client while `on` (the request is lost; the caller gets
+// an error at once) and counts the failed requests per requested key.
+type c19LossyKV struct {
+	clientv3.KV
+	mu     sync.Mutex
+	on     bool
+	failed map[string]int
+}
+
+func (k *c19LossyKV) Get(ctx context.Context, key string, opts ...clientv3.OpOption) (*clientv3.GetResponse, error) {
+	k.mu.Lock()
+	if k.on {
+		k.failed[key]++
+		k.mu.Unlock()
+		return nil, fmt.Errorf("verif: request lost: %w", context.DeadlineExceeded)
+	}
+	k.mu.Unlock()
+	return k.KV.Get(ctx, key, opts...)
+}
+
+func (k *c19LossyKV) set(on bool) {
+	k.mu.Lock()
+	k.on = on
+	if on {
+		k.failed = map[string]int{}
+	}
+	k.mu.Unlock()
+}
+
+func (k *c19LossyKV) count(key string) int {
+	k.mu.Lock()
+	defer k.mu.Unlock()
+	return k.failed[key]
+}
+
+// c19LossyMember is a second member value on the same options with its own etcd client (no embedded
+// server, no background goroutines): everything the syncer uses - getClient, GetRaw, GetRawPrefix, the
+// watcher - is the real code.
+func c19LossyMember(c *cluster) (*cluster, *c19LossyKV, error) {
+	cli, err := clientv3.New(clientv3.Config{Endpoints: c.opt.GetPeerURLs(), DialTimeout: 10 * time.Second})
+	if err != nil {
+		return nil, nil, err
+	}
+	lk := &c19LossyKV{KV: cli.KV, failed: map[string]int{}}
+	cli.KV = lk
+	return &cluster{opt: c.opt, requestTimeout: c.requestTimeout, client: cli, done: make(chan struct{})}, lk, nil
+}
+
 // per-scenario event log with its own sequence numbers
 type c19Log struct {
 	mu sync.Mutex
@@ -243,6 +307,12 @@ type c19Scenario struct {
 	nval     int               // big: values used so far
 	content  map[string]string // what the writer believes (only used to choose interesting operations)
 	failed   string
+	modSeq   map[string]int // per present key of c19Keys: number of the write that last put it (modification order)
+	nmod     int
+	endKind  string      // how the history ends, see ending()
+	sc       *cluster    // the member the syncer belongs to (c, or the lossy member)
+	lossy    *c19LossyKV // != nil: the syncer's member can be cut off from the server
+	outages  int         // lossy: outages with unchanged content during which every run loop saw >= 3 failed pulls
 }
 
 func (s *c19Scenario) key(k string) string { return s.prefix + k }
@@ -266,7 +336,10 @@ func (s *c19Scenario) short(full string) string {
 }
 
 func (s *c19Scenario) startConsumers() error {
-	sy, err := s.c.Syncer(c19PullInterval)
+	if s.sc == nil {
+		s.sc = s.c
+	}
+	sy, err := s.sc.Syncer(c19PullInterval)
 	if err != nil {
 		return err
 	}
@@ -404,13 +477,7 @@ func (s *c19Scenario) write(cli *clientv3.Client, hammer bool) {
 		return
 	}
 	set := c19KeepSet()
-	val := func() string {
-		if s.big {
-			s.nval++
-			return fmt.Sprintf("u%d", s.nval)
-		}
-		return []string{"v1", "v2", "v3"}[s.rng.Intn(3)]
-	}
+	val := s.newVal
 	k := c19Keys[s.rng.Intn(len(c19Keys))]
 	switch x := s.rng.Intn(10); {
 	case x < 4:
@@ -507,14 +574,209 @@ func (s *c19Scenario) write(cli *clientv3.Client, hammer bool) {
 			err = s.c.Put(out, val())
 		}
 	}
-	for kk, v := range set {
-		if v != "keep" {
-			s.content[kk] = v.(string)
-		}
-	}
+	s.wrote(set)
 	s.log.Emit(vx.M{"ev": "w.ret", "op": op, "ok": err == nil})
 	if err != nil {
 		s.failed = fmt.Sprintf("write %s failed: %v", op, err)
+	}
+}
+
+func (s *c19Scenario) newVal() string {
+	if s.big {
+		s.nval++
+		return fmt.Sprintf("u%d", s.nval)
+	}
+	return []string{"v1", "v2", "v3"}[s.rng.Intn(3)]
+}
+
+// wrote updates what the writer believes: the content and the order of the keys' last modifications
+func (s *c19Scenario) wrote(set vx.M) {
+	s.nmod++
+	for kk, v := range set {
+		if v == "keep" {
+			continue
+		}
+		s.content[kk] = v.(string)
+		if !c19IsKey(kk) {
+			continue
+		}
+		if v == "none" {
+			delete(s.modSeq, kk)
+		} else {
+			s.modSeq[kk] = s.nmod
+		}
+	}
+}
+
+// single performs one put (v != nil) or delete of key k through the cluster API
+func (s *c19Scenario) single(k string, v *string) {
+	if s.failed != "" {
+		return
+	}
+	set := c19KeepSet()
+	var err error
+	op := "put"
+	if v == nil {
+		op, set[k] = "del", "none"
+		s.log.Emit(vx.M{"ev": "w.inv", "op": op, "set": set})
+		err = s.c.Delete(s.key(k))
+	} else {
+		set[k] = *v
+		s.log.Emit(vx.M{"ev": "w.inv", "op": op, "set": set})
+		err = s.c.Put(s.key(k), *v)
+	}
+	s.wrote(set)
+	s.log.Emit(vx.M{"ev": "w.ret", "op": op, "ok": err == nil})
+	if err != nil {
+		s.failed = fmt.Sprintf("write %s failed: %v", op, err)
+	}
+}
+
+// present keys of c19Keys ordered by their last modification (oldest first)
+func (s *c19Scenario) byAge() []string {
+	var ks []string
+	for _, k := range c19Keys {
+		if _, ok := s.modSeq[k]; ok {
+			ks = append(ks, k)
+		}
+	}
+	for i := 1; i < len(ks); i++ {
+		for j := i; j > 0 && s.modSeq[ks[j]] < s.modSeq[ks[j-1]]; j-- {
+			ks[j], ks[j-1] = ks[j-1], ks[j]
+		}
+	}
+	return ks
+}
+
+// settle gives the syncers time to pull and deliver the current content (or not: a short pause)
+func (s *c19Scenario) settle(long bool) {
+	if long {
+		time.Sleep(2*c19PullInterval + time.Duration(s.rng.Intn(150))*time.Millisecond)
+	} else {
+		time.Sleep(time.Duration(s.rng.Intn(40)) * time.Millisecond)
+	}
+}
+
+// ending performs the last operations of the scenario's history, chosen by the keys' modification order.
+func (s *c19Scenario) ending() {
+	if s.failed != "" {
+		return
+	}
+	switch s.endKind {
+	case "del-newest":
+		// some key k becomes the most recently modified one while at least one older key remains; k is deleted
+		k := c19Keys[s.rng.Intn(len(c19Keys))]
+		others := 0
+		for _, o := range s.byAge() {
+			if o != k {
+				others++
+			}
+		}
+		if others == 0 {
+			o := k
+			for o == k {
+				o = c19Keys[s.rng.Intn(len(c19Keys))]
+			}
+			v := s.newVal()
+			s.single(o, &v)
+		}
+		v := s.newVal()
+		s.single(k, &v)
+		s.settle(s.rng.Intn(4) > 0)
+		s.single(k, nil)
+	case "del-oldest":
+		if ks := s.byAge(); len(ks) >= 2 {
+			s.settle(s.rng.Intn(2) == 0)
+			s.single(ks[0], nil)
+		}
+	case "same-put":
+		if ks := s.byAge(); len(ks) >= 1 {
+			k := ks[s.rng.Intn(len(ks))]
+			v := s.content[k]
+			s.settle(s.rng.Intn(2) == 0)
+			s.single(k, &v)
+		}
+	case "recreate":
+		if ks := s.byAge(); len(ks) >= 1 {
+			k := ks[s.rng.Intn(len(ks))]
+			v := s.content[k]
+			if s.big {
+				v = s.newVal()
+			}
+			s.settle(s.rng.Intn(2) == 0)
+			s.single(k, nil)
+			s.settle(false)
+			s.single(k, &v)
+		}
+	}
+}
+
+// lastWrites: a burst of n writes and the ending; on a lossy member every other time while the member is
+// cut off from the server
+func (s *c19Scenario) lastWrites(n int) {
+	if s.lossy != nil && s.rng.Intn(2) == 0 {
+		s.log.Emit(vx.M{"ev": "note", "what": "last writes while cut off"})
+		s.outage(1+s.rng.Intn(3), false, func() {
+			s.burst(n, nil)
+			if s.endKind == "none" && n == 0 {
+				s.write(nil, false)
+			}
+			s.ending()
+		})
+		return
+	}
+	s.burst(n, nil)
+	s.ending()
+}
+
+// outage cuts the syncer's member off from the server until every run loop of the scenario has seen at
+// least `need` pulls fail in a row, then heals it and leaves the store alone for some pull intervals.
+// unchanged: the store is not written from well before the outage until well after it and the content
+// is not empty; otherwise the writer goes on through the healthy member during the outage (`during`:
+// a burst, or the ending of the history - the pulls triggered by the last watch events fail then, and
+// only the periodic pull can deliver the final content).
+func (s *c19Scenario) outage(need int, unchanged bool, during func()) {
+	if s.failed != "" || s.lossy == nil {
+		return
+	}
+	if unchanged {
+		if len(s.byAge()) == 0 || (s.content["k1"] == "none" && s.rng.Intn(2) == 0) {
+			v := s.newVal()
+			s.single("k1", &v)
+		}
+		time.Sleep(3 * c19PullInterval) // the content is pulled and delivered
+	}
+	nk, np := 0, 0
+	for _, cn := range s.cons {
+		if cn.kind == "key" {
+			nk++
+		} else {
+			np++
+		}
+	}
+	s.log.Emit(vx.M{"ev": "part", "need": need, "unchanged": unchanged})
+	t0 := time.Now()
+	s.lossy.set(true)
+	if !unchanged && during != nil {
+		during()
+	}
+	enough := false
+	for dl := time.Now().Add(20 * time.Second); time.Now().Before(dl); time.Sleep(c19PullInterval / 4) {
+		if s.lossy.count(s.key("k1")) >= need*nk+nk && s.lossy.count(s.prefix) >= need*np+np &&
+			time.Since(t0) >= time.Duration(need+1)*c19PullInterval {
+			enough = true
+			break
+		}
+	}
+	fk, fp := s.lossy.count(s.key("k1")), s.lossy.count(s.prefix)
+	s.lossy.set(false)
+	s.log.Emit(vx.M{"ev": "heal", "failed_key_pulls": fk, "failed_prefix_pulls": fp, "key_loops": nk, "prefix_loops": np, "enough": enough,
+		"ms": int(time.Since(t0) / time.Millisecond)})
+	if unchanged {
+		time.Sleep(4 * c19PullInterval) // pulls succeed again, the content is what was delivered last
+		if enough && need >= 3 {
+			s.outages++
+		}
 	}
 }
 
@@ -643,7 +905,8 @@ func TestVerifC19Syncer(t *testing.T) {
 		for i := 0; i < perWave; i++ {
 			scenID++
 			lr := vx.Rand(rng.Int63())
-			s := &c19Scenario{id: scenID, prefix: fmt.Sprintf("/verif/s%d/", scenID), log: &c19Log{}, c: c, rng: lr, content: c19EmptyView()}
+			s := &c19Scenario{id: scenID, prefix: fmt.Sprintf("/verif/s%d/", scenID), log: &c19Log{}, c: c, rng: lr, content: c19EmptyView(),
+				modSeq: map[string]int{}}
 			nc := 2 + lr.Intn(3)
 			perm := lr.Perm(4)
 			for j := 0; j < nc; j++ {
@@ -673,9 +936,28 @@ func TestVerifC19Syncer(t *testing.T) {
 				s.cons[0].api, s.cons[0].kind = "SyncPrefix", "prefix"
 				s.cons[1].api, s.cons[1].kind = "SyncRawPrefix", "prefix"
 			}
-			s.log.Emit(vx.M{"ev": "reset", "scen": scenID, "wave": wave, "faulty": faulty, "consumers": nc, "stalling": stalling, "big": s.big})
+			// how the history ends: every third scenario with the deletion of the most recently modified key
+			if (i+wave)%3 == 0 {
+				s.endKind = "del-newest"
+			} else {
+				s.endKind = []string{"none", "none", "none", "del-newest", "del-oldest", "same-put", "recreate"}[lr.Intn(7)]
+			}
+			// one scenario per wave: the syncer's member can be cut off from the server
+			isLossy := i%4 == 2
+			if isLossy {
+				sc, lk, err := c19LossyMember(c)
+				if err != nil {
+					w.Raw(vx.M{"ev": "setup-failed", "what": "lossy member: " + err.Error()})
+					return
+				}
+				s.sc, s.lossy = sc, lk
+			}
+			s.log.Emit(vx.M{"ev": "reset", "scen": scenID, "wave": wave, "faulty": faulty, "consumers": nc, "stalling": stalling, "big": s.big,
+				"ending": s.endKind, "lossy": isLossy, "long_outage": faulty && wave%8 == 3})
 			scs = append(scs, s)
 		}
+		// a plain restart whose outage spans more than three failed pulls, with the content left alone around it
+		longOutage := faulty && wave%8 == 3
 		plan := make([]struct{ pre, p1, post, p2 int }, len(scs))
 		for i, s := range scs {
 			plan[i].pre = []int{0, 0, 1, 3}[s.rng.Intn(4)]
@@ -715,15 +997,37 @@ func TestVerifC19Syncer(t *testing.T) {
 			default:
 				s.burst(plan[i].p1, nil)
 			}
+			if s.lossy != nil {
+				s.outage(3+s.rng.Intn(4), true, nil)
+				if s.rng.Intn(2) == 0 {
+					s.outage(1+s.rng.Intn(4), false, func() { s.burst(1+s.rng.Intn(3), nil) })
+				}
+			}
+			if !faulty {
+				s.lastWrites(0)
+			} else if longOutage {
+				if len(s.byAge()) == 0 && s.rng.Intn(4) > 0 {
+					v := s.newVal()
+					s.single(c19Keys[s.rng.Intn(len(c19Keys))], &v)
+				}
+			}
 		})
 		mark("phase1 done")
+		if longOutage {
+			time.Sleep(3 * c19PullInterval) // the last content is delivered before the server stops
+		}
 		if faulty {
 			for _, s := range scs {
 				s.log.Emit(vx.M{"ev": "stop"})
 			}
 			c19Stop(c)
 			mark("stopped")
-			time.Sleep(time.Duration(300+rng.Intn(2500)) * time.Millisecond)
+			if longOutage {
+				// a pull against the stopped server fails when its request context (4 s) expires, or earlier
+				time.Sleep(3*c.requestTimeout + 3*c19PullInterval + time.Duration(900+rng.Intn(1500))*time.Millisecond)
+			} else {
+				time.Sleep(time.Duration(300+rng.Intn(2500)) * time.Millisecond)
+			}
 			blind := wave%4 == 1
 			if !blind {
 				// plain restart
@@ -788,7 +1092,10 @@ func TestVerifC19Syncer(t *testing.T) {
 				return
 			}
 			mark("member client back")
-			par(func(i int, s *c19Scenario) { s.burst(plan[i].p2, nil) })
+			if longOutage {
+				time.Sleep(5 * c19PullInterval) // the syncers pull the unchanged content
+			}
+			par(func(i int, s *c19Scenario) { s.lastWrites(plan[i].p2) })
 			mark("phase2 done")
 		}
 		par(func(i int, s *c19Scenario) { s.converge() })
@@ -799,6 +1106,12 @@ func TestVerifC19Syncer(t *testing.T) {
 			}
 		}
 		time.Sleep(100 * time.Millisecond)
+		for _, s := range scs {
+			if s.lossy != nil {
+				w.Raw(vx.M{"ev": "lossy-summary", "scen": s.id, "outages_unchanged_3plus": s.outages})
+				s.sc.client.Close()
+			}
+		}
 		for _, s := range scs {
 			s.log.mu.Lock()
 			if s.failed != "" {
